@@ -338,7 +338,7 @@ class MementoFunction(MementoFunctionBase):
         context: InvocationContext = None,
         partial_args: Tuple[Any] = None,
         partial_kwargs: Dict[str, Any] = None,
-        auto_dependencies: bool = True,
+        auto_dependencies: bool = None,
         dependencies: List[Union[str, MementoFunctionType]] = None,
         version_code_hash: str = None,
         version_salt: str = None,
@@ -357,7 +357,13 @@ class MementoFunction(MementoFunctionBase):
             context=context or self.context,
             partial_args=partial_args or self.partial_args,
             partial_kwargs=partial_kwargs or self.partial_kwargs,
-            auto_dependencies=auto_dependencies or self.auto_dependencies,
+            # `or` would turn a function declared with auto_dependencies=False back into an
+            # automatically analyzed one
+            auto_dependencies=(
+                self.auto_dependencies
+                if auto_dependencies is None
+                else auto_dependencies
+            ),
             dependencies=dependencies or self._constructor_provided_dependencies,
             version_code_hash=version_code_hash
             or self._constructor_provided_version_code_hash,
